@@ -17,6 +17,11 @@ def hexs(b):
     return binascii.hexlify(bytes(b)).decode("ascii")
 
 
+def ihex(n):
+    """Ints travel as signed hexadecimal text (twin of truth.py): decimal conversion of huge ints is refused by 3.11+."""
+    return ("-%x" % -n) if n < 0 else ("%x" % n)
+
+
 def fbits(x):
     return hexs(struct.pack(">d", x))
 
@@ -53,7 +58,7 @@ def canon(v, bc_version=(3, 8), code_mode="full", fields=None):
     tn = t.__name__
     if tn == "LongTypeForPython3":
         # xdis's stand-in for the Python 2 `long` kind
-        return ["l" if py2 else "i", str(int(v))]
+        return ["l" if py2 else "i", ihex(int(v))]
     if tn == "UnicodeForPython3":
         # xdis's stand-in for the Python 2 `unicode` kind; wraps UTF-8 bytes
         raw = v.value
@@ -64,7 +69,7 @@ def canon(v, bc_version=(3, 8), code_mode="full", fields=None):
                 return ["?", "undecodable-unicode", hexs(raw)]
         return canon_text(str(raw))
     if isinstance(v, int):
-        return ["i", str(int(v))]
+        return ["i", ihex(int(v))]
     if t is float:
         return ["f", fbits(v)]
     if t is complex:
